@@ -174,6 +174,7 @@ class Noh2PDE(Obligation):
 
 
 class GuderleyPDE(Obligation):
+    replay_limit_s = 300        # the real Guderley solve takes 20-40 s on an idle core, several times that under load
     """pre- and post-reflection flow: with dV/dx, dC/dx, dR/dx := g(x, y) (the real right-hand side, executed symbolically)
     the dimensional fields of state() at x = t_L / r^lambda satisfy the Euler equations"""
     uses_derivatives = True
